@@ -177,8 +177,8 @@ type SeqResult struct {
 	Violations []string `json:"violations"`
 }
 
-func SeqWorker(depth int) SeqResult {
-	all := Ops(false)
+func SeqWorker(depth int, thorough bool) SeqResult {
+	all := Ops(thorough)
 	pick := []string{"plan/mysql", "plan/postgres", "plan/sqlite", "marshal_hcl/mysql", "eval_marshal/postgres", "format/all", "checksum/memdir+localdir", "diff_order/sqlite"}
 	var ops []Op
 	for _, n := range pick {
@@ -479,7 +479,7 @@ func Run(r *report.Run) {
 		env = append(env, "VERIF_SOLO_"+sha(n)[:12]+"="+h)
 	}
 	var sr SeqResult
-	if err := spawn([]string{"C20", "--seq", fmt.Sprint(depth)}, append(env, "VERIF_MAPCTL=0"), &sr); err != nil {
+	if err := spawn([]string{"C20", "--seq", fmt.Sprint(depth), "--tier", r.Tier}, append(env, "VERIF_MAPCTL=0"), &sr); err != nil {
 		r.Violate("", "harness: sequence worker failed: "+err.Error(), nil)
 	}
 	for _, v := range sr.Violations {
